@@ -250,7 +250,12 @@ def run_prefix(ctx: Ctx) -> RuleResult:
     res = RuleResult('R-PREFIX-PROTOCOL', 'helper names carry the prefix their consumer tests; users cannot define names with it')
     # EBNF helpers
     nr = repo.func('lark.load_grammar:EBNF_to_BNF._name_rule')
-    fmts = [const_str(n.left) for n in nr.body_nodes() if isinstance(n, ast.BinOp) and isinstance(n.op, ast.Mod) and const_str(n.left)]
+    from ..exprs import str_template as _st
+    fmts = []
+    for n in nr.body_nodes():
+        t_ = _st(n) if isinstance(n, (ast.BinOp, ast.JoinedStr, ast.Call)) else None
+        if t_ is not None and t_[1] and not (isinstance(parent(n), ast.BinOp) and _st(parent(n)) is not None):
+            fmts.append(t_[0])
     ok = len(fmts) == 1 and _fmt_prefix(fmts[0]).startswith('__')
     res.ob('%s %s' % (nr.loc(), nr.qual), 'EBNF helper rules are named %r: start with "__" (inlined by _should_expand, reserved for the loader)' % fmts, ok)
     if not ok:
@@ -408,9 +413,10 @@ def run_ambig_index(ctx: Ctx) -> RuleResult:
             after = m.node.body[m.node.body.index(lp) + 1:]
             ok = ok and any('[None] * self.append_none' in norm(st) for st in after) \
                 and isinstance(after[-1], ast.Return) and 'self.node_builder(' in norm(after[-1])
-        res.ob('%s %s' % (m.loc(), m.qual), 'placeholders precede the kept child they belong to; trailing ones are appended', ok, props=['C03'])
+        pr_ = ['C03', 'C04'] if cname == 'ChildFilter' else ['C03']      # ChildFilter is the one used under explicit ambiguity
+        res.ob('%s %s' % (m.loc(), m.qual), 'placeholders precede the kept child they belong to; trailing ones are appended', ok, props=pr_)
         if not ok:
-            res.finding(m, m.node, '%s no longer inserts the None placeholders before the kept child / at the end' % cname, construct=cname + ':nones', props=['C03'])
+            res.finding(m, m.node, '%s no longer inserts the None placeholders before the kept child / at the end' % cname, construct=cname + ':nones', props=pr_)
     mcf = repo.func('lark.parse_tree_builder:maybe_create_child_filter')
     acc = find_pat(mcf.body_nodes(), '$n += $e[$i]')
     ok = False
@@ -512,6 +518,40 @@ def run_ambig_index(ctx: Ctx) -> RuleResult:
     if not ok:
         res.finding(esc, esc.node, 'ExpandSingleChild no longer inlines exactly the single-child case (a child that is None / falsy is a '
                     'child like any other: the embedded transformer may have returned it)', construct='expand1', props=['C03', 'C16'])
+    # an '_ambig' node is built exactly when there is more than one derivation (two derivations are already ambiguous)
+    from ..exprs import path_conditions, as_less
+    from ..model import enclosing_stmt as _encl
+    n_amb = 0
+    for fq in ('lark.parsers.earley_forest:ForestToParseTree._call_ambig_func', 'lark.parsers.earley_forest:TreeForestTransformer.__default_ambig__'):
+        f = repo.func(fq)
+        mk = [c for c in f.body_nodes() if isinstance(c, ast.Call) and c.args and const_str(c.args[0]) == '_ambig']
+        for c in mk:
+            n_amb += 1
+            data = norm(c.args[1]) if len(c.args) > 1 else '?'
+            want = ast.parse('len(%s) > 1' % data, mode='eval').body
+            conds = path_conditions(_encl(c))
+            ok = any((bool_relation(t, want) == 'same' and pol) or (bool_relation(t, want) == 'negated' and not pol) for t, pol in conds)
+            res.ob('%s %s' % (f.loc(c), f.qual), "an '_ambig' node is built exactly when len(%s) > 1" % data, ok, props=['C04', 'C20'])
+            if not ok:
+                res.finding(f, c, "the '_ambig' node over %s is not built exactly when there is more than one derivation (conditions: %s): with two "
+                            'derivations one is silently dropped, or a single derivation is wrapped' % (data, [('' if p_ else 'not ') + norm(t) for t, p_ in conds]),
+                            construct='ambig-threshold', props=['C04', 'C20'])
+    res.require_instances(n_amb, 2, "'_ambig' construction sites of the forest transformers")
+    # the product of no alternatives is the one empty combination (a node without children has one derivation, not none)
+    ca = repo.func('lark.utils:combine_alternatives')
+    pca = ca.positional_names()[0]
+    okc = True
+    why = ''
+    for r_ in [r for r in ca.body_nodes() if isinstance(r, ast.Return) and r.value is not None]:
+        conds = path_conditions(r_)
+        if any(norm(t) == pca and not pol or norm(t) == 'not ' + pca and pol for t, pol in conds):
+            v = r_.value
+            okc = isinstance(v, ast.List) and len(v.elts) == 1 and isinstance(v.elts[0], (ast.List, ast.Tuple)) and not v.elts[0].elts
+            why = norm(v)
+    res.ob('%s %s' % (ca.loc(), ca.qual), 'combine_alternatives([]) is [[]] (one empty combination)', okc, props=['C04', 'C20'])
+    if not okc:
+        res.finding(ca, ca.node, 'combine_alternatives returns %s for no lists: a tree node without children then expands to no tree at all instead of '
+                    'one, and every derivation containing it disappears (or an assertion fails)' % why, construct='product-unit', props=['C04', 'C20'])
     for f_ in res.findings:         # everything else here is about ambiguity / index bases
         if f_.props is None:
             f_.props = ['C03', 'C04']
